@@ -13,10 +13,13 @@ import subprocess
 from lib.coqterm import cbytes, cbool, cN, clist, copt, hx, unhx
 
 ID = "C48"
-QUICK_N = 900
-THOROUGH_N = 10000
+QUICK_N = 1000
+THOROUGH_N = 5000
 SHARD = 200
-RULE = ("55% requests built from per-field token dictionaries (shell metacharacters, quotes, command substitutions, "
+RULE = ("(shares: req 45%, sh 17%, quote 13%, raw 10%, hist 15% = histories of 2-4 curl/httpie/raw/raw_request exports of the "
+        "SAME flow object, with/without Content-Encoding, with a body but no Content-Length header (HTTP/2 style), request "
+        "state compared before/after every export and every raw export read back against a snapshot taken before the first) "
+        "requests built from per-field token dictionaries (shell metacharacters, quotes, command substitutions, "
         "control characters, percent/backslash, leading dash/at-sign, high and invalid UTF-8 bytes in method, scheme, host, "
         "path, header names/values and body; charsets, gzip bodies, host/:authority/content-length/accept-encoding headers, "
         "peer address x export_preserve_original_ip), exported as curl and httpie and executed; 20% shell command lines "
@@ -47,10 +50,11 @@ __rec() { { printf 'R'; for __a in "$@"; do printf 'A%d:%s' "${#__a}" "$__a"; do
 curl() { __rec curl "$@"; }
 http() { __rec http "$@"; }
 pwned() { __rec pwned "$@"; }
-__i=0
+__i=__S__
 while [ $__i -lt __N__ ]; do
   C48_OUT=__W__/o$__i
-  ( cd __W__/d$__i && . __W__/s$__i ) </dev/null >/dev/null 2>&1
+  cd __W__/d$__i
+  __RUN__ </dev/null >/dev/null 2>&1
   echo $? > __W__/r$__i
   __i=$((__i+1))
 done
@@ -78,20 +82,32 @@ def _run_group(cmds, shell):
         os.mkdir(os.path.join(w, "d%d" % i))
         with open(os.path.join(w, "s%d" % i), "wb") as fp:
             fp.write(c)
+    # bash: every command file is sourced by the driver itself (no fork per command; a fork costs 10-200 ms on the
+    # build machine): a syntax error only fails the `.`; if a command ends the driver (exit, exec) it is recorded as
+    # abnormal and a new driver continues after it.  dash ends on a syntax error in a sourced file, so it gets a subshell.
     read = "IFS= read -r -d '' __s" if shell == "bash" else ":"
+    runc = ". __W__/s$__i" if shell == "bash" else "( . __W__/s$__i )"
     drv = os.path.join(w, "driver")
-    open(drv, "w").write(DRIVER.replace("__READ__", read).replace("__N__", str(len(cmds))).replace("__W__", w))
     env = {"PATH": "/nonexistent", "LC_ALL": "C", "HOME": "/nonexistent"}
     argv = [BASH, "--norc", "--noprofile", drv] if shell == "bash" else [DASH, drv]
-    try:
-        subprocess.run(argv, cwd=w, env=env, stdin=subprocess.DEVNULL, stdout=subprocess.DEVNULL,
-                       stderr=subprocess.DEVNULL, timeout=900)
-    except subprocess.TimeoutExpired:
-        pass
+    start, died = 0, set()
+    while start < len(cmds):
+        open(drv, "w").write(DRIVER.replace("__READ__", read).replace("__RUN__", runc).replace("__S__", str(start))
+                             .replace("__N__", str(len(cmds))).replace("__W__", w))
+        try:
+            subprocess.run(argv, cwd=w, env=env, stdin=subprocess.DEVNULL, stdout=subprocess.DEVNULL,
+                           stderr=subprocess.DEVNULL, timeout=600)
+        except subprocess.TimeoutExpired:
+            pass
+        miss = next((i for i in range(start, len(cmds)) if not os.path.exists(os.path.join(w, "r%d" % i))), None)
+        if miss is None:
+            break
+        died.add(miss)
+        start = miss + 1
     res = []
     for i in range(len(cmds)):
         rcf, out = os.path.join(w, "r%d" % i), os.path.join(w, "o%d" % i)
-        if not os.path.exists(rcf):
+        if i in died:
             res.append({"runs": [], "rc": -1, "files": [], "timeout": True})
             continue
         rc = int(open(rcf).read().strip() or -1)
@@ -339,10 +355,14 @@ def gen_raw(rng):
         v = _mix(rng, [PLAINISH, [b" ", b"'", b'"', b";", b"$(pwned)", b"\xc3\xa9", b"\xff", b"\t", b"a b", b":"]], 0, 4).strip()
         hs.append([hx(k), hx(v)])
     body = rng.choice([b"", b"hello", _mix(rng, [BODYTOK], 0, 5), rng.bytes(rng.randint(0, 30)), None])
-    mode = rng.choice(["cl", "cl", "gzip", "chunked", "none", "trailers-bad"])
+    mode = rng.choice(["cl", "cl", "gzip", "chunked", "none", "trailers-bad", "nocl", "nocl"])
     trailers = None
     if body is not None:
-        if mode == "gzip" and body:
+        if mode == "nocl":        # HTTP/2-style: the body length is not announced by a header
+            if rng.chance(0.3) and body:
+                hs.append([hx(b"content-encoding"), hx(b"gzip")])
+                body = gzip.compress(body, mtime=0)
+        elif mode == "gzip" and body:
             hs.append([hx(b"content-encoding"), hx(b"gzip")])
             body = gzip.compress(body, mtime=0)
             hs.append([hx(b"content-length"), hx(b"%d" % len(body))])
@@ -365,18 +385,50 @@ def gen_raw(rng):
             "content": None if body is None else hx(body), "trailers": trailers}
 
 
+def gen_hist(rng):
+    """several exports of the SAME flow object; well-formed request so that the raw exports can be read back"""
+    host = rng.choice([b"example.com", b"address", b"10.0.0.1", b"h'q.example"])
+    port = rng.choice([80, 443, 8080])
+    hs = []
+    if rng.chance(0.7):
+        hs.append([hx(rng.choice([b"host", b"Host"])), hx(rng.choice([host, host, host + b":%d" % port, b"other.example"]))])
+    for _ in range(rng.randint(0, 3)):
+        k = rng.choice([b"x-a", b"Cookie", b"accept", b"accept-encoding", b"content-type", b"user-agent"])
+        v = rng.choice(CTYPES) if k == b"content-type" else _mix(rng, [PLAINISH, [b" ", b"'", b";", b"$(pwned)", b"a b"]], 1, 3).strip()
+        hs.append([hx(k), hx(v or b"v")])
+    body = rng.choice([b"", b"hello", b"a=b&c=d", b'{"a": 1}\n', _mix(rng, [BODYTOK], 1, 4), None])
+    ver = rng.choice([b"HTTP/1.1", b"HTTP/1.1", b"HTTP/2.0"])
+    if body:
+        if rng.chance(0.35):
+            hs.append([hx(b"content-encoding"), hx(b"gzip")])
+            body = gzip.compress(body, mtime=0)
+        if ver != b"HTTP/2.0" and rng.chance(0.75) or rng.chance(0.3):
+            hs.append([hx(rng.choice([b"content-length", b"Content-Length"])), hx(b"%d" % len(body))])
+    elif body == b"" and rng.chance(0.5):
+        hs.append([hx(b"content-length"), hx(b"0")])
+    seq = [rng.choice(["curl", "httpie", "raw", "raw_request"]) for _ in range(rng.randint(1, 3))]
+    seq.append(rng.choice(["raw", "raw_request", "raw", "curl"]))
+    return {"k": "hist", "method": hx(rng.choice([b"GET", b"POST", b"POST", b"PUT"])), "scheme": hx(rng.choice([b"http", b"https"])),
+            "host": hx(host), "port": port, "authority": hx(host + b":%d" % port if ver == b"HTTP/2.0" else b""),
+            "path": hx(rng.choice([b"/", b"/a?b=c", b"/a'b", b"/$(pwned)"])), "ver": hx(ver), "headers": hs,
+            "content": None if body is None else hx(body), "trailers": None, "peer": rng.choice(PEERS),
+            "preserve": rng.chance(0.5), "seq": seq}
+
+
 def gen(rng, n, tier):
     out = []
     for _ in range(n):
         r = rng.random()
-        if r < 0.55:
+        if r < 0.45:
             out.append(gen_req(rng))
-        elif r < 0.75:
+        elif r < 0.62:
             out.append(gen_sh(rng))
-        elif r < 0.90:
+        elif r < 0.75:
             out.append(gen_quote(rng))
-        else:
+        elif r < 0.85:
             out.append(gen_raw(rng))
+        else:
+            out.append(gen_hist(rng))
     _pending.extend(out)
     return out
 
@@ -514,6 +566,40 @@ def _stage1(case):
         except Exception as e:
             out = "Other:" + type(e).__name__
         return {"inp": inp, "out": out}, []
+    if k == "hist":
+        _state["tctx"].options.export_preserve_original_ip = case["preserve"]
+        try:   # model inputs and the snapshot come from separate, pristine copies of the flow
+            inp = _inputs(_mkflow(case))
+            d = export.cleanup_request(_mkflow(case)).data
+            rawinp = {"method": hx(d.method), "scheme": hx(d.scheme), "authority": hx(d.authority), "path": hx(d.path),
+                      "ver": hx(d.http_version), "headers": [[hx(a), hx(b)] for a, b in d.headers.fields],
+                      "content": None if d.content is None else hx(d.content), "trailers": ""}
+            s0 = _mkflow(case).request
+            body0 = s0.get_content(strict=False)
+            snap = {"method": hx(s0.data.method), "scheme": hx(s0.data.scheme), "authority": hx(s0.data.authority),
+                    "path": hx(s0.data.path), "ver": hx(s0.data.http_version),
+                    "headers": [[hx(a), hx(b)] for a, b in s0.data.headers.fields], "body": None if body0 is None else hx(body0)}
+        except Exception as e:
+            return {"skip": "inputs:" + type(e).__name__}, []
+        f = _mkflow(case)
+        items = []
+        for fmt in case["seq"]:
+            before = f.request.get_state()
+            if fmt in ("curl", "httpie"):
+                out = _export(export.curl_command if fmt == "curl" else export.httpie_command, f)
+            else:
+                try:
+                    out = {"ok": hx((export.raw if fmt == "raw" else export.raw_request)(f))}
+                except ValueError:
+                    out = "ValueError"
+                except exceptions.CommandError:
+                    out = "CommandError"
+                except Exception as e:
+                    out = "Other:" + type(e).__name__
+            after = f.request.get_state()
+            changed = sorted(k_ for k_ in before if before[k_] != after.get(k_))
+            items.append({"fmt": fmt, "out": out, "changed": changed})
+        return {"inp": inp, "rawinp": rawinp, "snap": snap, "items": items, "fp": _state["fp"], "fg": _state["fg"]}, []
     # req
     f = _mkflow(case)
     _state["tctx"].options.export_preserve_original_ip = case["preserve"]
@@ -584,6 +670,29 @@ def coq_case(case, obs):
          f"{chdrs(i['headers'])} {cbool(i['has_content'])} {text})")
     peer = case["peer"]
     addr = copt(None if peer is None else peer.encode(), cbytes, "bytes")
+    if k == "hist":
+        ri = obs["rawinp"]
+        head = (f"(mkReq [] 0%N {B(ri['method'])} {B(ri['scheme'])} {B(ri['authority'])} {B(ri['path'])} {B(ri['ver'])} "
+                f"{chdrs(ri['headers'])})")
+        fl = f"(mkFlow {x} {head} {copt(ri['content'], B, 'bytes')} {B(ri['trailers'])})"
+        fmts, outs = [], []
+        for it in obs["items"]:
+            o = it["out"]
+            if it["fmt"] in ("curl", "httpie"):
+                fmts.append("FCurl" if it["fmt"] == "curl" else "FHttpie")
+                outs.append(f"(OX {cxres(o)})")
+            else:
+                fmts.append("FRaw")
+                if isinstance(o, dict):
+                    outs.append(f"(OR (Ok {B(o['ok'])}))")
+                elif o == "ValueError":
+                    outs.append("(OR (@ValueError bytes))")
+                elif o == "CommandError":
+                    outs.append("(OR (@OtherError bytes))")
+                else:
+                    outs.append("(OX (@XOther bytes))")   # an exception the model does not have: forces a disagreement
+        return (f"Hist {cbool(obs['fp'])} {cbool(obs['fg'])} {cbool(case['preserve'])} {addr} {fl} "
+                f"{clist(fmts, 'fmt')} {clist(outs, 'eout')}")
     bash = case.get("sh", "bash") == "bash"
     must = lambda c: isinstance(c, dict) and b"\x00" not in unhx(c["ok"])
     m = bash and obs["fp"] and all(must(obs[n]) or not isinstance(obs[n], dict) for n in ("curl", "httpie"))
@@ -836,7 +945,40 @@ def oracle(case, obs):
         return []
     if k == "raw":
         return _oracle_raw(case, obs)
+    if k == "hist":
+        return _oracle_hist(case, obs)
     return []
+
+
+def _oracle_hist(case, obs):
+    """exports must not change the flow; equal exports of one flow are equal; every raw export reads back (HTTP/1
+    reader) as the request captured BEFORE the first export (body decoded, content-length/-encoding recomputed)"""
+    v, seen, s = [], {}, obs["snap"]
+    seq = ">".join(case["seq"])
+    for n, it in enumerate(obs["items"]):
+        fmt, o = it["fmt"], it["out"]
+        if it["changed"]:
+            v.append({"key": "export-mutates-flow", "what": f"history {seq}: export #{n} ({fmt}) changed request fields {it['changed']}"})
+        kind = "raw" if fmt.startswith("raw") else fmt
+        if kind in seen and seen[kind] != o:
+            v.append({"key": "export-history-differs", "what": f"history {seq}: export #{n} ({fmt}) differs from an earlier {kind} export of the same flow"})
+        seen.setdefault(kind, o)
+        if kind != "raw":
+            continue
+        if not isinstance(o, dict):
+            if not (o == "CommandError" and s["body"] is None):
+                v.append({"key": "raw-raises", "what": f"history {seq}: {fmt} raised {o}"})
+            continue
+        p = _ref_parse_request(unhx(o["ok"]))
+        method, authority, path = unhx(s["method"]), unhx(s["authority"]), unhx(s["path"])
+        target = authority if method.upper() == b"CONNECT" else (unhx(s["scheme"]) + b"://" + authority + path if authority else path)
+        skip = (b"content-length", b"content-encoding")
+        exp_h = [(unhx(a), unhx(b).strip(b" \t")) for a, b in s["headers"] if unhx(a).lower() not in skip]
+        exp = (method, target, unhx(s["ver"]), exp_h, unhx(s["body"]))
+        got = None if p is None else (p[0], p[1], p[2], [(a, b) for a, b in p[3] if a.lower() not in skip], p[4])
+        if got != exp:
+            v.append({"key": "raw-roundtrip", "what": f"history {seq}: export #{n} ({fmt}) {unhx(o['ok'])!r} reads back as {got!r}, captured request was {exp!r}"})
+    return v
 
 
 def nontrivial(case, obs):
@@ -850,6 +992,8 @@ def nontrivial(case, obs):
         return b"'" in unhx(obs["cmd"])
     if k == "raw":
         return isinstance(obs["out"], dict)
+    if k == "hist":
+        return len(case["seq"]) > 1 and any(isinstance(it["out"], dict) for it in obs["items"])
     c = obs["curl"]
     return isinstance(c, dict) and (b"'" in unhx(c["ok"]) or b" -d " in unhx(c["ok"]))
 
@@ -859,6 +1003,15 @@ def classify(case, obs):
         return [case["k"], "skip:" + obs["skip"]]
     k = case["k"]
     tags = [k]
+    if k == "hist":
+        seq = ["raw" if s.startswith("raw") else "cmd" for s in case["seq"]]
+        tags.append("hist:" + ">".join(seq[-2:]))
+        names = [unhx(a).lower() for a, _ in case["headers"]]
+        if case["content"] and b"content-length" not in names:
+            tags.append("hist-body-without-content-length")
+        if b"content-encoding" in names:
+            tags.append("hist-content-encoding")
+        return tags
     if k == "sh":
         r = clean_run(obs["sh"])
         tags += ["must" if case["must"] else "mutated", "clean-run" if r else "abnormal-run"]
